@@ -189,6 +189,7 @@ type Case struct {
 	History []ReqSpec `json:"history"` // requests served before, on the same context
 	Req     ReqSpec   `json:"req"`
 	Desc    string    `json:"desc,omitempty"`
+	PartC   *PartC    `json:"part_c,omitempty"`
 }
 
 func (s Shape) valid() bool {
@@ -737,6 +738,10 @@ func replay(c *mc.Ctx, raw json.RawMessage) {
 	if json.Unmarshal(raw, &cs) != nil {
 		return
 	}
+	if cs.PartC != nil {
+		execPartC(c, *cs.PartC, cs)
+		return
+	}
 	if v := reproduce(cs); v.key != "" {
 		c.Violate(v.key, v.msgf(), cs)
 	}
@@ -1085,6 +1090,13 @@ func run(c *mc.Ctx) {
 		for k := range l.outcomes {
 			out[k] = struct{}{}
 		}
+	}
+	pcs := partCCases()
+	c.Extra("partC_cases", len(pcs))
+	for i := range pcs {
+		execPartC(c, pcs[i], Case{PartC: &pcs[i], Desc: "part C"})
+		exec++
+		nontriv++
 	}
 	c.Add("executions", exec)
 	c.Add("nontrivial", nontriv)
